@@ -65,6 +65,32 @@ theorem C37_fromAddress_total (chk : Bytes → Bytes) (s : List Char) : fromAddr
 theorem C37_fromAddress_unfixed_panics :
     fromAddress false (fun _ => [0, 0, 0, 0]) (List.replicate 34 '1') = .panic := by decide
 
+/-- **Checksum / canonicity.** Whatever string the decoder accepts is exactly the encoding of the 21 bytes it
+    returns (so its embedded four check bytes are the checksum of those 21 bytes, and there is one accepted
+    string per program hash), it has 34 characters and yields 21 bytes — for every checksum function. -/
+theorem C37_fromAddress_sound (chk : Bytes → Bytes) (s : List Char) (u : Bytes)
+    (h : fromAddress true chk s = .val (.ok u)) : toAddress chk u = s ∧ u.length = 21 ∧ s.length = 34 :=
+  fromAddress_sound true chk s u h
+
+/-- **Which strings `StringToFixed64` accepts** — every textual form, decided on the model (and compared with the real
+    parser by the `parse` ops): an optional sign at the very beginning (`-` or `+`), any number of decimal digits —
+    none is allowed —, optionally ONE dot followed by at most 8 digits; nothing else (no exponent, no second dot, no
+    blanks, no sign elsewhere, no `_`), and the scaled value must fit int64.  In particular the empty string, "+", "-"
+    and "." are accepted and mean 0. -/
+theorem C37_parse_forms :
+    stringToAmount true "".toList = some 0 ∧ stringToAmount true "+".toList = some 0 ∧
+    stringToAmount true "-".toList = some 0 ∧ stringToAmount true ".".toList = some 0 ∧
+    stringToAmount true "+1".toList = some 100000000 ∧ stringToAmount true "1.".toList = some 100000000 ∧
+    stringToAmount true ".5".toList = some 50000000 ∧ stringToAmount true "-.5".toList = some (-50000000) ∧
+    stringToAmount true "+1.5".toList = some 150000000 ∧ stringToAmount true "007.10".toList = some 710000000 ∧
+    stringToAmount true "1e5".toList = none ∧ stringToAmount true "1..2".toList = none ∧
+    stringToAmount true "1.2.3".toList = none ∧ stringToAmount true "1.123456789".toList = none ∧
+    stringToAmount true "1_000".toList = none ∧ stringToAmount true " 1".toList = none ∧
+    stringToAmount true "1-".toList = none ∧ stringToAmount true "--1".toList = none ∧
+    stringToAmount true "0x10".toList = none ∧ stringToAmount true "92233720368.54775807".toList = some (2 ^ 63 - 1) ∧
+    stringToAmount true "92233720368.54775808".toList = none ∧ stringToAmount true "-92233720368.54775808".toList = some (-(2 ^ 63)) := by
+  decide
+
 /-! ## wallet-built programs pass the node's check -/
 
 /-- **Standard account.** If the scheme is correct for this key and signature
